@@ -174,3 +174,48 @@ def run(chk):
                     raise Violation("get_batch: absent generators", f"{pdata} {odata}", "None")
             return "same next batches, same advanced generators"
         chk.run("C07.R5", f"{SOLVE}:_get_get_batch", {"aux": aux}, go, construct="get_batch variants")
+
+    run_batch_size_check(chk)
+
+
+def run_batch_size_check(chk):
+    """R6: solve() accepts an auxiliary (parameter / observation) generator exactly when its batch size is the number of rows
+    of the main generator's batch, for every kind of main generator"""
+    from ..genenv import GenEnv
+    from ..interp import AbstractRaise
+    from ..extern import OpaqueObj
+    G = GenEnv(chk.repo)
+    chk.files.update(G.w.files)
+    chk.rule("C07.R6", "_check_batch_size: an auxiliary generator is accepted iff its batch size equals the number of rows of the "
+                       "main batch (times; interior points; times x points for a product; paired rows otherwise)", floor=4)
+    try:
+        f = G.w.get(SOLVE, "_check_batch_size")
+    except Exception as ex:
+        chk.run("C07.R6", f"{SOLVE}:_check_batch_size", {}, lambda ex=ex: (_ for _ in ()).throw(Inconclusive(f"_check_batch_size not found: {ex}")))
+        return
+    mains = {
+        "DataGeneratorODE": (lambda: G.ode(temporal_batch_size=6), 6),
+        "CubicMeshPDEStatio": (lambda: G.statio(2, omega_batch_size=5), 5),
+        "CubicMeshPDENonStatio[cartesian]": (lambda: G.nonstatio(2, cartesian=True, omega_batch_size=5, temporal_batch_size=3), 15),
+        "CubicMeshPDENonStatio[paired]": (lambda: G.nonstatio(2, cartesian=False, omega_batch_size=4, temporal_batch_size=4), 4),
+    }
+    for name, (mk, rows) in mains.items():
+        for attr in ("param_batch_size", "obs_batch_size"):
+            def go(mk=mk, rows=rows, attr=attr, name=name):
+                main = mk()
+                ok = OpaqueObj('aux', attrs={attr: rows})
+                try:
+                    f(ok, main, attr)
+                except AbstractRaise as ar:
+                    raise Violation(f"{name} / {attr}", f"an auxiliary generator with {attr} = {rows} (the rows of the main batch) is "
+                                    f"rejected: {type(ar.exc).__name__}: {str(ar.exc)[:100]}", "accepted")
+                for bad in {rows + 1, rows * 2, 1} - {rows}:
+                    try:
+                        f(OpaqueObj('aux', attrs={attr: bad}), main, attr)
+                    except AbstractRaise as ar:
+                        if isinstance(ar.exc, ValueError):
+                            continue
+                        raise
+                    raise Violation(f"{name} / {attr}", f"{attr} = {bad} accepted although the main batch has {rows} rows", "ValueError")
+                return f"accepted iff {attr} == {rows}"
+            chk.run("C07.R6", f"{SOLVE}:_check_batch_size", {"main": name, "attr": attr}, go, construct=f"batch-size agreement[{name}]")
